@@ -199,9 +199,14 @@ def cases(tier, seed):
             v = g.r.choice([0, 1, 5, 255, 256, 65536, 2**40, MAX, g.r.randrange(0, 1000)])
             g.syms[nm] = v
             (pre if g.r.random() < .5 else post).append('.equ %s = %s' % (g.case(nm), g.lit(v)))
-        if g.r.random() < .3:
+        k = g.r.random()
+        if k < .3:
             g.syms['Lbl'] = 100 + len(g.syms)
             post.append('.org %d\n%s:' % (g.syms['Lbl'], g.r.choice(['Lbl', 'lbl', 'LBL'])))
+        elif k < .4:
+            # the label right behind the .dq line: its value is the four words the line occupies
+            g.syms['Lbl'] = 4
+            post.insert(0, '%s:' % g.r.choice(['Lbl', 'lbl', 'LBL']))
         if g.r.random() < .05:
             g.syms['nosuch'] = None
         t = g.tree(g.r.randrange(1, 7))
